@@ -494,7 +494,8 @@ def shapes_bounded_instance():
     def make(B):
         return {'fn': B.choose('fn', ['mvdr', 'mvdr', 'lcmv', 'souden', 'wmwf']), 'D': B.choose('D', [2, 3, 4, 6, 8]), 'F': B.choose('F', ['1', 'D', '5', '32']),
                 'K': B.choose('K', [None, 1, 2, 3]), 'cond': B.choose('cond', [1e1, 1e3, 1e6]), 'mu': B.choose('mu', [0, 0.0, 0.5, 1.0, 100.0]),
-                'seed': B.choose('seed', list(range(5000))), 'd': B.given('d', np.zeros(1))}
+                'seed': B.choose('seed', list(range(5000))), 'd': B.given('d', np.zeros(1)),
+                'real': B.choose('real', ['none', 'none', 'steering', 'noise', 'both'])}
 
     def hpd(rng, F, D, cond):
         A = rng.normal(size=(F, D, D)) + 1j * rng.normal(size=(F, D, D))
@@ -509,9 +510,13 @@ def shapes_bounded_instance():
         F = {'1': 1, 'D': D, '5': 5, '32': 32}[inp['F']]
         K, fn = inp['K'], inp['fn']
         Pn = hpd(rng, F, D, inp['cond'])
+        if inp['real'] in ('noise', 'both'):
+            Pn = np.ascontiguousarray(Pn.real)             # real symmetric positive definite, float dtype
         res = {'fn': fn, 'Pn': Pn}
         if fn == 'mvdr':
             a = rng.normal(size=((F, D) if K is None else (K, F, D))) + 1j * rng.normal(size=((F, D) if K is None else (K, F, D)))
+            if inp['real'] in ('steering', 'both'):
+                a = np.ascontiguousarray(a.real)           # a steering vector given as a float array
             res.update(a=a, w=bf.get_mvdr_vector(a, Pn))
         elif fn == 'lcmv':
             Kc = K or 2
